@@ -169,6 +169,19 @@ theorem C07_corr_symm (r : FitResult ℝ) (hsym : ∀ i j, r.cov i j = r.cov j i
   simp only [FitResult.corrMatrix, num_div, num_mul, num_sqrt]
   rw [hsym i j, mul_comm]
 
+/-- **C07.** For a covariance whose 2×2 minors are positive semidefinite (`cov_ij² ≤ cov_ii·cov_jj`)
+    every correlation lies in [−1, 1]: `set_covariance` (which rejects |ρ| > 1) accepts every
+    entry of a genuine covariance matrix. -/
+theorem C07_corr_bounded (r : FitResult ℝ) (i j : Nat) (hi : 0 < r.cov i i) (hj : 0 < r.cov j j)
+    (hminor : r.cov i j ^ 2 ≤ r.cov i i * r.cov j j) : |r.regCorr i j| ≤ 1 := by
+  simp only [FitResult.regCorr, FitResult.perr, num_div, num_mul, num_sqrt]
+  have hpos : 0 < Real.sqrt (r.cov i i) * Real.sqrt (r.cov j j) :=
+    mul_pos (Real.sqrt_pos.mpr hi) (Real.sqrt_pos.mpr hj)
+  rw [abs_div, abs_of_pos hpos, div_le_one hpos]
+  rw [← Real.sqrt_mul (le_of_lt hi)]
+  apply Real.abs_le_sqrt
+  exact hminor
+
 /-- **C07 (covariance round trip).** The covariance the derivative method rebuilds from the
     parameter uncertainties `σ_i = sqrt(cov_ii)` and the registered correlations
     `ρ_ij = cov_ij/(σ_i σ_j)` is the fit covariance again. -/
